@@ -563,47 +563,59 @@ fn exec(out: &mut Out, world: &mut World, line: &str, rtm: &tokio::runtime::Runt
             }
         }
         "twin" => {
-            // twin <idx> <kind> <id> <qf> <query> <stale q len> <stale b len> <element bytes>: documented twins —
-            // write_message_typed_slice / _complex_slice == builder.body_typed_slice / _complex_slice + write_message
+            // twin <idx> <kind> <11 header fields> <query> <element bytes> <payload>: the streamed slice writers with ANY header
+            // argument (every field over its boundary classes: pre-set lengths, formats, ec, notify, reserved, id).
+            // Documented: body_format is set to BEVE, the three lengths are filled in, "the bytes on the wire are identical
+            // to a MessageBuilder::body_typed_slice message written with write_message".
             let ops = vec![line.to_string()];
             let kind = w[2];
-            let id: u64 = w[3].parse().unwrap();
-            let qf: u16 = w[4].parse().unwrap();
-            let q = unhex(w[5]).unwrap();
-            let (sq, sb): (u64, u64) = (w[6].parse().unwrap(), w[7].parse().unwrap());
-            let raw = unhex(w[8]).unwrap();
-            let mut h = Header::new();
-            h.id = id;
-            h.query_format = qf;
-            h.query_length = sq; // stale lengths the writer must overwrite
-            h.body_length = sb;
-            h.length = sq.wrapping_mul(3);
-            let bld = || Message::builder().id(id).query_format_code(qf).query_bytes(q.clone());
+            let rh = parse_header_words(&w[3..14]).expect("twin header");
+            let q = unhex(w[14]).unwrap();
+            let raw = unhex(w[15]).unwrap();
+            let h = rh.to_repe();
             let mut streamed = MoodySink::new(9, true);
-            let (res, built) = match kind {
+            let mut streamed2 = MoodySink::new(1000, false);
+            // the same call once more with a header the builder can express (fresh header + id + query format): twins
+            let mut hb = Header::new();
+            hb.id = rh.id;
+            hb.query_format = rh.query_format;
+            hb.query_length = rh.query_length; // stale lengths the writer must overwrite
+            hb.body_length = rh.body_length;
+            hb.length = rh.length;
+            let bld = || Message::builder().id(rh.id).query_format_code(rh.query_format).query_bytes(q.clone());
+            let (res, res2, built) = match kind {
                 "f64" => {
                     let xs: Vec<f64> = raw.chunks_exact(8).map(|c| f64::from_le_bytes(c.try_into().unwrap())).collect();
-                    (repe::write_message_typed_slice(&mut streamed, h, &q, &xs), bld().body_typed_slice(&xs).build())
+                    (repe::write_message_typed_slice(&mut streamed, h, &q, &xs), repe::write_message_typed_slice(&mut streamed2, hb, &q, &xs), bld().body_typed_slice(&xs).build())
                 }
                 "i32" => {
                     let xs: Vec<i32> = raw.chunks_exact(4).map(|c| i32::from_le_bytes(c.try_into().unwrap())).collect();
-                    (repe::write_message_typed_slice(&mut streamed, h, &q, &xs), bld().body_typed_slice(&xs).build())
+                    (repe::write_message_typed_slice(&mut streamed, h, &q, &xs), repe::write_message_typed_slice(&mut streamed2, hb, &q, &xs), bld().body_typed_slice(&xs).build())
                 }
-                "u8" => (repe::write_message_typed_slice(&mut streamed, h, &q, &raw[..]), bld().body_typed_slice(&raw[..]).build()),
+                "u8" => (repe::write_message_typed_slice(&mut streamed, h, &q, &raw[..]), repe::write_message_typed_slice(&mut streamed2, hb, &q, &raw[..]), bld().body_typed_slice(&raw[..]).build()),
                 _ => {
                     let xs: Vec<repe::Complex<f32>> = raw.chunks_exact(8).map(|c| repe::Complex { re: f32::from_le_bytes(c[..4].try_into().unwrap()), im: f32::from_le_bytes(c[4..].try_into().unwrap()) }).collect();
-                    (repe::write_message_complex_slice(&mut streamed, h, &q, &xs), bld().body_complex_slice(&xs).build())
+                    (repe::write_message_complex_slice(&mut streamed, h, &q, &xs), repe::write_message_complex_slice(&mut streamed2, hb, &q, &xs), bld().body_complex_slice(&xs).build())
                 }
             };
+            // independent expectation: the header as given, lengths patched, body format BEVE, then query, then the payload
+            let mut ph = rh.clone();
+            ph.query_length = q.len() as u64;
+            ph.body_length = built.body.len() as u64;
+            ph.length = 48 + q.len() as u64 + built.body.len() as u64;
+            ph.body_format = 1;
+            let want = RawFrame { h: ph, query: q.clone(), body: built.body.clone() }.to_vec();
+            if res.is_err() || streamed.out != want {
+                out.oracle_fail(&format!("wire.slice_writer.{}.header_argument", kind), &format!("streamed slice writer given a header with body_format {} / lengths {} {} {}: the frame is not that header with the lengths filled in and body_format BEVE (ok {})", rh.body_format, rh.length, rh.query_length, rh.body_length, res.is_ok()), &ops);
+            }
             let mut buffered = Vec::new();
             repe::write_message(&mut buffered, &built).unwrap();
-            let whole = matches!(RawFrame::parse_prefix(&streamed.out), Some((ref f, n)) if n == streamed.out.len() && f.query == q);
-            let same_frame = streamed.out == buffered && built.clone().into_wire_bytes() == buffered;
-            if res.is_err() || !whole || !same_frame {
-                out.oracle_fail(&format!("wire.twin.{}", kind), &format!("streamed slice writer vs builder + write_message: ok {} whole-frame {} identical {}", res.is_ok(), whole, same_frame), &ops);
+            let same_frame = streamed2.out == buffered && built.clone().into_wire_bytes() == buffered;
+            if res2.is_err() || !same_frame {
+                out.oracle_fail(&format!("wire.twin.{}", kind), &format!("streamed slice writer vs builder + write_message: ok {} identical {}", res2.is_ok(), same_frame), &ops);
             }
             out.count(&format!("wire.twin.{}", kind));
-            (format!("{} {}", idx, if same_frame { "=".to_string() } else { hex(&streamed.out) }), true)
+            (format!("{} {}", idx, hex(&streamed.out)), true)
         }
         "cb" => {
             // cb <idx> <behaviour> <11 header fields> <query> <body>: write_message_streaming with a body callback that
@@ -1004,7 +1016,21 @@ fn gen_aux(r: &mut Rng, ops: &mut Vec<String>, i: usize, h: &RawHeader, q: &[u8]
     let unit = match kind { "f64" | "c32" => 8, "i32" => 4, _ => 1 };
     let count = *r.pick(&[0usize, 1, 2, 3, 63, 64, 65, 1000]);
     let raw = r.bytes(unit * count);
-    ops.push(format!("twin {}t {} {} {} {} {} {} {}", i, kind, r.boundary(64), *r.pick(&[0u16, 1, 7, 65535]), hex(&gen_query(r)), r.boundary(64), r.boundary(64), hex(&raw)));
+    // the header ARGUMENT over every field's boundary classes: a fresh header, one copied from a JSON / UTF-8 / custom-format
+    // message, stale lengths, error code, notify, reserved, any version
+    let mut th = h.clone();
+    let any_bf = r.boundary(16) as u16;
+    th.body_format = *r.pick(&[0u16, 0, 1, 2, 3, 0x1001, 0xFFFF, any_bf]);
+    th.query_format = *r.pick(&[0u16, 1, 7, 65535]);
+    if r.chance(1, 3) { th.spec = 0x1507; th.version = 1; th.notify = 0; th.reserved = 0; th.ec = 0; }
+    let tq = gen_query(r);
+    let payload = match kind {
+        "f64" => Message::builder().body_typed_slice(&raw.chunks_exact(8).map(|c| f64::from_le_bytes(c.try_into().unwrap())).collect::<Vec<f64>>()).build().body,
+        "i32" => Message::builder().body_typed_slice(&raw.chunks_exact(4).map(|c| i32::from_le_bytes(c.try_into().unwrap())).collect::<Vec<i32>>()).build().body,
+        "u8" => Message::builder().body_typed_slice(&raw[..]).build().body,
+        _ => Message::builder().body_complex_slice(&raw.chunks_exact(8).map(|c| repe::Complex { re: f32::from_le_bytes(c[..4].try_into().unwrap()), im: f32::from_le_bytes(c[4..].try_into().unwrap()) }).collect::<Vec<repe::Complex<f32>>>()).build().body,
+    };
+    ops.push(format!("twin {}t {} {} {} {} {}", i, kind, th.fields(), hex(&tq), hex(&raw), hex(&payload)));
     let beh = *r.pick(&["plain", "err_io", "err_repe", "panic_str", "panic_string", "panic_other", "slow", "nested"]);
     ops.push(format!("cb {}c {} {} {} {}", i, beh, h.fields(), hex(q), hex(&b[..b.len().min(300)])));
 }
@@ -1660,35 +1686,18 @@ fn exec_net(out: &mut Out, w: &NetWorld, line: &str) -> (String, bool) {
         // where the rest of the stream begins with a complete well-formed request frame to the counting route `/smuggled`
         // (id 99).  Whatever the server does at the timeout (close, or finish the same frame), it must never take up
         // reading in the middle of a frame: nothing embedded is dispatched or answered.
-        "tcprt" | "atcprt" | "tcprw" | "atcprw" => {
-            let (addr, _) = tcp_ep(w, ep);
+        "tcp" | "atcp" | "tcpw" | "atcpw" | "tcprt" | "atcprt" | "tcprw" | "atcprw" => {
+            let (addr, has_rt) = tcp_ep(w, ep);
             let splits: Vec<usize> = ws_.get(5).map(|x| x.split(',').filter_map(|t| t.parse().ok()).collect()).unwrap_or_default();
             let stall = std::time::Duration::from_millis(ws_.get(6).and_then(|x| x.parse().ok()).unwrap_or(4 * READ_TIMEOUT_MS));
-            let count0 = w.smuggled.load(std::sync::atomic::Ordering::SeqCst);
-            let mut got = Vec::new();
-            if let Ok(mut s) = std::net::TcpStream::connect(addr) {
-                let _ = s.set_nodelay(true);
-                let mut at = 0usize;
-                for &sp in splits.iter().chain(std::iter::once(&bs.len())) {
-                    let sp = sp.min(bs.len());
-                    if sp > at {
-                        if s.write_all(&bs[at..sp]).is_err() { break; }
-                        at = sp;
-                    }
-                    if at < bs.len() { std::thread::sleep(stall); }
-                }
-                let _ = s.shutdown(std::net::Shutdown::Write);
-                got = repe_verif_harness::net::drain(&mut s, 1 << 20, std::time::Duration::from_millis(400));
+            let (bs2, ping2, smug, ep2, line2) = (bs.clone(), ping.clone(), w.smuggled.clone(), ep.to_string(), line.to_string());
+            let job = move || stall_case(addr, has_rt, &bs2, &splits, stall, &smug, &ep2, &line2, &ping2);
+            if ws_.get(7).copied() == Some("bg") {
+                // long stalls run concurrently; their verdicts are collected at the end of the run
+                DEFERRED.lock().unwrap().push((line.to_string(), std::thread::spawn(job)));
+            } else {
+                for (sig, detail) in job() { out.oracle_fail(&sig, &detail, &[line.to_string()]); }
             }
-            // give a dispatch that is still in flight on the server a moment to show
-            std::thread::sleep(std::time::Duration::from_millis(20));
-            let answered_99 = RawFrame::split_stream(&got).0.iter().any(|f| f.h.id == 99);
-            let ran = w.smuggled.load(std::sync::atomic::Ordering::SeqCst) != count0;
-            if answered_99 || ran {
-                out.oracle_fail(&format!("parse.net.{}.embedded_frame_dispatched", ep), &format!("after a stall inside a frame (read timeout {} ms, stall {} ms at offsets {:?}) bytes INSIDE that frame were read as a frame of their own: handler ran {}, response for the embedded id arrived {}", READ_TIMEOUT_MS, stall.as_millis(), splits, ran, answered_99), &[line.to_string()]);
-            }
-            // the server must still answer a fresh connection
-            alive = still_serves(addr, true, &ping);
         }
         // the WebSocket proxy entry point (`proxy_connection`): one inbound binary message = one frame, forwarded upstream
         "wsproxy" => {
@@ -1746,48 +1755,12 @@ fn exec_net(out: &mut Out, w: &NetWorld, line: &str) -> (String, bool) {
         "clientfrag" | "aclientfrag" => {
             let spec = parse_frag(Some(extra));
             let stall = std::time::Duration::from_millis(ws_.get(6).and_then(|x| x.parse().ok()).unwrap_or(0));
-            let body = bs.clone();
-            let l = std::net::TcpListener::bind("127.0.0.1:0").unwrap();
-            let addr = l.local_addr().unwrap();
-            let cuts = spec.cuts.clone();
-            std::thread::spawn(move || {
-                if let Ok((mut s, _)) = l.accept() {
-                    let _ = s.set_nodelay(true);
-                    let mut got = Vec::new();
-                    let mut tmp = [0u8; 4096];
-                    while RawFrame::parse_prefix(&got).is_none() {
-                        match s.read(&mut tmp) { Ok(0) | Err(_) => return, Ok(n) => got.extend_from_slice(&tmp[..n]) }
-                    }
-                    let id = RawHeader::parse(&got).map(|h| h.id).unwrap_or(0);
-                    let reply = RawFrame::request(id, false, 1, b"/x", 2, &body).to_vec();
-                    let mut at = 0usize;
-                    for &sp in cuts.iter().chain(std::iter::once(&reply.len())) {
-                        let sp = sp.min(reply.len());
-                        if sp > at {
-                            if s.write_all(&reply[at..sp]).is_err() { return; }
-                            at = sp;
-                        }
-                        if at < reply.len() && !stall.is_zero() { std::thread::sleep(stall); }
-                    }
-                    std::thread::sleep(std::time::Duration::from_millis(200));
-                }
-            });
-            let want: serde_json::Value = serde_json::from_slice(&bs).expect("reply body is JSON");
-            let got: Result<serde_json::Value, String> = if ep == "clientfrag" {
-                match repe::Client::connect(addr) {
-                    Ok(c) => c.call_json_with_timeout("/x", &serde_json::json!(1), std::time::Duration::from_secs(10)).map_err(|e| err_class(&e)),
-                    Err(e) => Err(format!("connect: {}", e)),
-                }
+            let (body, ep2, line2, handle) = (bs.clone(), ep.to_string(), line.to_string(), w.rt.handle().clone());
+            let job = move || client_frag_case(&ep2, handle, &body, &spec.cuts, stall, &line2);
+            if ws_.get(7).copied() == Some("bg") {
+                DEFERRED.lock().unwrap().push((line.to_string(), std::thread::spawn(job)));
             } else {
-                w.rt.block_on(async {
-                    match repe::AsyncClient::connect(addr).await {
-                        Ok(c) => c.call_json_with_timeout("/x", &serde_json::json!(1), std::time::Duration::from_secs(10)).await.map_err(|e| err_class(&e)),
-                        Err(e) => Err(format!("connect: {}", e)),
-                    }
-                })
-            };
-            if got.as_ref().ok() != Some(&want) {
-                out.oracle_fail(&format!("parse.net.{}.fragmented_reply_wrong", ep), &format!("a whole consistent {}-byte response delivered in pieces (cuts {:?}, stall {} ms) did not come back as its own body: {:?}", 48 + 2 + bs.len(), spec.cuts, stall.as_millis(), got.as_ref().map(|_| "a different value")), &[line.to_string()]);
+                for (sig, detail) in job() { out.oracle_fail(&sig, &detail, &[line.to_string()]); }
             }
         }
         // the real WebSocketClient answered with a well-formed response for ITS id followed by extra bytes in the same
@@ -1826,6 +1799,111 @@ fn exec_net(out: &mut Out, w: &NetWorld, line: &str) -> (String, bool) {
     finish_net(out, ep, idx, line, before, alive, "")
 }
 
+/// Verdicts of cases that run in the background (long stalls): (signature, detail) pairs, the op line is the last word of detail's owner.
+static DEFERRED: std::sync::Mutex<Vec<(String, std::thread::JoinHandle<Vec<(String, String)>>)>> = std::sync::Mutex::new(Vec::new());
+
+const ID_MARK: u64 = 0x5a5a_5a5a_5a5a_5a5a;
+
+/// Replace every 8-byte id marker in a template by the id the real client chose.
+fn stamp_id(template: &[u8], id: u64) -> Vec<u8> {
+    let mut real = template.to_vec();
+    let marker = ID_MARK.to_le_bytes();
+    let mut i = 0;
+    while i + 8 <= real.len() {
+        if real[i..i + 8] == marker { real[i..i + 8].copy_from_slice(&id.to_le_bytes()); i += 8; } else { i += 1; }
+    }
+    real
+}
+
+/// One frame written in pieces with a stall at each split; the remaining bytes after the (last) split begin with a complete
+/// well-formed request frame (id 99 → `/smuggled`).  Nothing embedded may be dispatched or answered.
+#[allow(clippy::too_many_arguments)]
+fn stall_case(addr: std::net::SocketAddr, has_rt: bool, bs: &[u8], splits: &[usize], stall: std::time::Duration, smuggled: &std::sync::atomic::AtomicU64, ep: &str, line: &str, ping: &[u8]) -> Vec<(String, String)> {
+    use std::io::Write;
+    let mut fails = Vec::new();
+    let count0 = smuggled.load(std::sync::atomic::Ordering::SeqCst);
+    let mut got = Vec::new();
+    if let Ok(mut s) = std::net::TcpStream::connect(addr) {
+        let _ = s.set_nodelay(true);
+        let mut at = 0usize;
+        for &sp in splits.iter().chain(std::iter::once(&bs.len())) {
+            let sp = sp.min(bs.len());
+            if sp > at {
+                if s.write_all(&bs[at..sp]).is_err() { break; }
+                at = sp;
+            }
+            if at < bs.len() { std::thread::sleep(stall); }
+        }
+        let _ = s.shutdown(std::net::Shutdown::Write);
+        got = repe_verif_harness::net::drain(&mut s, 1 << 20, std::time::Duration::from_millis(400));
+    }
+    // give a dispatch that is still in flight on the server a moment to show
+    std::thread::sleep(std::time::Duration::from_millis(20));
+    let answered_99 = RawFrame::split_stream(&got).0.iter().any(|f| f.h.id == 99);
+    let ran = smuggled.load(std::sync::atomic::Ordering::SeqCst) != count0;
+    if answered_99 || ran {
+        fails.push((format!("parse.net.{}.embedded_frame_dispatched", ep), format!("after a stall inside a frame (endpoint read timeout {}, stall {} ms at offsets {:?}) bytes INSIDE that frame were read as a frame of their own: handler ran {}, response for the embedded id arrived {} [{}]", if has_rt { "30 ms" } else { "none" }, stall.as_millis(), splits, ran, answered_99, &line[..line.len().min(40)])));
+    }
+    if !still_serves(addr, has_rt, ping) {
+        fails.push((format!("parse.net.{}.dead_after", ep), "the endpoint no longer answers a well-formed request after a stalled frame".to_string()));
+    }
+    fails
+}
+
+/// A well-formed response for the client's own id delivered in pieces with stalls; `body` may itself contain a well-formed
+/// response frame for the same id (marker id, stamped here) right after a cut.  The call returns exactly that response.
+fn client_frag_case(ep: &str, handle: tokio::runtime::Handle, body: &[u8], cuts: &[usize], stall: std::time::Duration, line: &str) -> Vec<(String, String)> {
+    use std::io::{Read, Write};
+    let l = std::net::TcpListener::bind("127.0.0.1:0").unwrap();
+    let addr = l.local_addr().unwrap();
+    let (cuts2, body2) = (cuts.to_vec(), body.to_vec());
+    let (tx, rx) = std::sync::mpsc::channel::<Vec<u8>>();
+    std::thread::spawn(move || {
+        if let Ok((mut s, _)) = l.accept() {
+            let _ = s.set_nodelay(true);
+            let mut got = Vec::new();
+            let mut tmp = [0u8; 4096];
+            while RawFrame::parse_prefix(&got).is_none() {
+                match s.read(&mut tmp) { Ok(0) | Err(_) => return, Ok(n) => got.extend_from_slice(&tmp[..n]) }
+            }
+            let id = RawHeader::parse(&got).map(|h| h.id).unwrap_or(0);
+            let reply = RawFrame::request(id, false, 1, b"/x", 0, &stamp_id(&body2, id)).to_vec();
+            let _ = tx.send(reply.clone());
+            let mut at = 0usize;
+            for &sp in cuts2.iter().chain(std::iter::once(&reply.len())) {
+                let sp = sp.min(reply.len());
+                if sp > at {
+                    if s.write_all(&reply[at..sp]).is_err() { return; }
+                    at = sp;
+                }
+                if at < reply.len() && !stall.is_zero() { std::thread::sleep(stall); }
+            }
+            std::thread::sleep(std::time::Duration::from_millis(300));
+        }
+    });
+    let limit = std::time::Duration::from_secs(10) + 4 * stall;
+    let got: Result<Message, String> = if ep == "clientfrag" {
+        match repe::Client::connect(addr) {
+            Ok(c) => c.call_with_formats_and_timeout("/x", 1, Some(b"{}"), 2, limit).map_err(|e| err_class(&e)),
+            Err(e) => Err(format!("connect: {}", e)),
+        }
+    } else {
+        handle.block_on(async {
+            match repe::AsyncClient::connect(addr).await {
+                Ok(c) => c.call_with_formats_and_timeout("/x", 1, Some(b"{}"), 2, limit).await.map_err(|e| err_class(&e)),
+                Err(e) => Err(format!("connect: {}", e)),
+            }
+        })
+    };
+    let reply = rx.recv_timeout(std::time::Duration::from_secs(2)).unwrap_or_default();
+    let same = match (&got, RawFrame::parse_prefix(&reply)) {
+        (Ok(m), Some((f, _))) => m.body == f.body && m.query == f.query && RawHeader::of(&m.header) == f.h,
+        _ => false,
+    };
+    if same { return vec![]; }
+    vec![(format!("parse.net.{}.fragmented_reply_wrong", ep), format!("a whole consistent {}-byte response delivered in pieces ({} cuts, first {:?}, stall {} ms) did not come back as itself: {} [{}]", reply.len(), cuts.len(), cuts.first(), stall.as_millis(), match &got { Ok(m) => format!("Ok with a {}-byte body, format {}", m.body.len(), m.header.body_format), Err(e) => format!("Err {}", e) }, &line[..line.len().min(40)]))]
+}
+
 fn finish_net(out: &mut Out, ep: &str, idx: &str, line: &str, before: u64, alive: bool, what: &str) -> (String, bool) {
     let after = PANICS.load(std::sync::atomic::Ordering::SeqCst);
     if after != before {
@@ -1844,6 +1922,7 @@ fn finish_net(out: &mut Out, ep: &str, idx: &str, line: &str, before: u64, alive
 /// query is the embedded frame), inside the query, at the query/body boundary, inside the body.
 fn gen_stall(r: &mut Rng, n: usize) -> Vec<String> {
     let mut ops = Vec::new();
+    let n_long = if n > 16 { 48 } else { 8 };
     for i in 0..n {
         let ebody = { let l = r.below(24) as usize; r.bytes(l) };
         let emb = RawFrame::request(99, r.chance(1, 3), 1, b"/smuggled", 2, if r.chance(1, 2) { b"null" } else { &ebody[..] }).to_vec();
@@ -1882,6 +1961,13 @@ fn gen_stall(r: &mut Rng, n: usize) -> Vec<String> {
         let stall_ms = if r.chance(1, 8) { 0 } else { *r.pick(&[4 * READ_TIMEOUT_MS, 5 * READ_TIMEOUT_MS, 7 * READ_TIMEOUT_MS]) };
         let sp: Vec<String> = splits.iter().map(|x| x.to_string()).collect();
         ops.push(format!("net st{} {} {} 0 {} {}", i, ["tcprt", "atcprt", "tcprw", "atcprw"][i % 4], hex(&frame), sp.join(","), stall_ms));
+        // stalls longer than any plausible INTERNAL timer (a liveness poll, a keep-alive tick), on every endpoint — also
+        // those without a configured read timeout, which then serve the outer frame; run in the background
+        if i < n_long {
+            let long: &[u64] = if n_long > 8 { &[300, 600, 1100, 2500, 5500, 11000] } else { &[300, 600, 1100] };
+            let ep = ["tcp", "atcp", "tcpw", "atcpw", "tcprt", "atcprt", "tcprw", "atcprw"][i % 8];
+            ops.push(format!("net sl{} {} {} 0 {} {} bg", i, ep, hex(&frame), pos, long[(i / 8 + i) % long.len()]));
+        }
     }
     ops
 }
@@ -1938,7 +2024,6 @@ fn gen_net2(r: &mut Rng, thorough: bool) -> Vec<String> {
     }
     // (i, g) EINTR inside a response frame to the blocking Client, 1 / 2 / 8 signals in a row, at offsets where the rest of the
     // stream begins with a well-formed response for the same id (the id is stamped in by the child: marker 0x5a…)
-    const ID_MARK: u64 = 0x5a5a_5a5a_5a5a_5a5a;
     for i in 0..(if thorough { 24 } else { 4 }) {
         let emb = RawFrame::request(ID_MARK, false, 1, b"/x", 2, b"\"SMUGGLED\"").to_vec();
         let (real, pos) = match i % 4 {
@@ -1948,6 +2033,18 @@ fn gen_net2(r: &mut Rng, thorough: bool) -> Vec<String> {
             _ => { let mut b = vec![b' '; 40]; b.extend_from_slice(&emb); (RawFrame::request(ID_MARK, false, 1, b"/x", 0, &b).to_vec(), 1 + r.below(47) as usize) }   // control: EINTR inside the header
         };
         ops.push(format!("net ei{} eintr {} 0 {} {}", i, hex(&real), pos, *r.pick(&[1usize, 2, 8])));
+    }
+    // (i, h) replies whose remaining bytes after a cut begin with a well-formed response for the same id, with a pause
+    // longer than any plausible internal timer of the client's response loop; in the background
+    let long: &[u64] = if thorough { &[300, 600, 1100, 2500, 5500, 11000] } else { &[300, 600, 1100] };
+    for i in 0..(if thorough { 24 } else { 6 }) {
+        let emb = RawFrame::request(ID_MARK, false, 1, b"/x", 2, b"\"SMUGGLED\"").to_vec();
+        let k = match i % 3 { 0 => 0, 1 => 1 + r.below(30) as usize, _ => 200 + r.below(9000) as usize };
+        let mut body = r.bytes(k);
+        body.extend_from_slice(&emb);
+        let tl = r.below(20) as usize;
+        body.extend(r.bytes(tl));
+        ops.push(format!("net cl{} {} {} 0 c{} {} bg", i, if i % 2 == 0 { "clientfrag" } else { "aclientfrag" }, hex(&body), 48 + 2 + k, long[(i / 2) % long.len()]));
     }
     // (i) replies to the real clients in pieces: every cut class for both clients, with and without a stall
     for i in 0..(if thorough { 80 } else { 12 }) {
@@ -2061,13 +2158,7 @@ fn eintr_child(extra: &[String]) {
             match s.read(&mut tmp) { Ok(0) | Err(_) => return, Ok(n) => got.extend_from_slice(&tmp[..n]) }
         }
         let id = RawHeader::parse(&got).map(|h| h.id).unwrap_or(0);
-        // the template carries id 0 in the outer header and in every embedded header: stamp the client's id everywhere
-        let mut real = template.clone();
-        let marker = 0x5a5a_5a5a_5a5a_5a5au64.to_le_bytes();
-        let mut i = 0;
-        while i + 8 <= real.len() {
-            if real[i..i + 8] == marker { real[i..i + 8].copy_from_slice(&id.to_le_bytes()); i += 8; } else { i += 1; }
-        }
+        let real = stamp_id(&template, id);
         let _ = tx.send(real.clone());
         let cut = cut.min(real.len());
         let _ = s.write_all(&real[..cut]);
@@ -2162,6 +2253,14 @@ fn main() {
         }
         let (obs, nt) = exec(&mut out, &mut world_state, &line, &rtm);
         out.case(&line, &obs, nt);
+    }
+    let jobs: Vec<_> = std::mem::take(&mut *DEFERRED.lock().unwrap());
+    for (line, j) in jobs {
+        if let Ok(fails) = j.join() {
+            for (sig, detail) in fails {
+                out.oracle_fail(&sig, &detail, &[line.clone()]);
+            }
+        }
     }
     out.finish();
 }
